@@ -3,7 +3,7 @@
 # work in /verif and /repo is not disturbed. Final confirmation runs use /repo itself (tools/seedcheck.sh).
 # usage: mutrun.sh <outfile> <patchdir>... ; env PROPS="C01 C02 ..." limits the properties
 OUT=$1; shift
-MR=/tmp/mut-repo; MV=/tmp/mut-verif
+MR=${MR:-/tmp/mut-repo}; MV=${MV:-/tmp/mut-verif}
 [ -d $MR ] || git -C /repo worktree add --detach $MR HEAD >/dev/null 2>&1
 git -C $MR checkout -q --detach $(git -C /repo rev-parse HEAD) 2>/dev/null
 mkdir -p $MV
